@@ -1,12 +1,17 @@
 // C17 — ports deliver exactly while listening, for every order of lifecycle calls.
 //
 // (a) testdrv life cycle: BFS over open/listen/send/stop/close histories to the
-//     fixpoint against the life-cycle model (lifecycle.go).
+//
+//	fixpoint against the life-cycle model (lifecycle.go).
+//
 // (b) midicatdrv under the controlled scheduler: all interleavings of five
-//     scenario harnesses (sched.go, scenarios.go) — built from the driver's
-//     sources rewritten onto the vsync shim.
+//
+//	scenario harnesses (sched.go, scenarios.go) — built from the driver's
+//	sources rewritten onto the vsync shim.
+//
 // (c) race pass: the unmodified driver with -race against a stand-in helper
-//     binary (complement, sampled schedules; race.go).
+//
+//	binary (complement, sampled schedules; race.go).
 package main
 
 import (
@@ -25,6 +30,10 @@ func main() {
 		switch m["kind"] {
 		case "lifecycle":
 			replayLifecycle(m)
+		case "schedule":
+			replaySchedule(m)
+		case "race":
+			racePass()
 		}
 		ctx.Finish("replay")
 	}
